@@ -339,6 +339,16 @@ func checkRandNames(w *World, r *Result) {
 					switch fullName(calleeOf(info, c2)) {
 					case "(*go/types.Basic).Name":
 						dynamic = "basic-name"
+						// types.Typ[kind].Name() is the canonical name of the kind ("uint8", never "byte"): what functionID uses
+						if sel, ok := ast.Unparen(c2.Fun).(*ast.SelectorExpr); ok {
+							if ix, ok := ast.Unparen(sel.X).(*ast.IndexExpr); ok {
+								if ts, ok := ast.Unparen(ix.X).(*ast.SelectorExpr); ok {
+									if v, ok := info.Uses[ts.Sel].(*types.Var); ok && v.Pkg() != nil && v.Pkg().Path() == "go/types" && v.Name() == "Typ" {
+										dynamic = "function-id"
+									}
+								}
+							}
+						}
 					default:
 						if fn := calleeOf(info, c2); fn != nil && fn.Name() == "functionIDBasicOrNamed" {
 							dynamic = "function-id"
